@@ -55,6 +55,7 @@ var groupsOrder = []string{"bank", "oblig", "bind", "index", "ctx", "queue", "re
 
 func newRunner(w *World, a *Atoms, h *History, out *bufio.Writer) *Runner {
 	ctx, _ := w.base.CacheContext()
+	w.cbLog = nil
 	r := &Runner{w: w, a: a, cfg: cfgs[h.CfgIdx], ctx: ctx, height: height0, now: time0, out: out, prev: map[string]string{}, hist: h}
 	w.k.SetParams(r.ctx, r.cfg.params())
 	r.supply0 = w.supply(r.ctx)
